@@ -344,7 +344,7 @@ func TestVerifC16Hybrid(t *testing.T) {
 					memLeakChecked = true
 					if l := snap.Leaked(scope, nil, 500*time.Millisecond); len(l) > 0 {
 						sum := vk.FrameSummary(l)
-						run.Violation("C16:hybrid|goroutine-left|"+c16LeakFn(sum[0]), map[string]any{"case": desc, "leaked": len(l), "frames": sum, "stack": l[0].Stack})
+						run.Violation("C16:hybrid|goroutine-left|"+c16LeakFn(l[0]), map[string]any{"case": desc, "leaked": len(l), "frames": sum, "stack": l[0].Stack})
 						run.Count("leak_violations", 1) // after 3 the test stops: every further trial would wait the full poll interval
 					}
 				}
@@ -355,17 +355,24 @@ func TestVerifC16Hybrid(t *testing.T) {
 		// asynchronous write-backs of Get() finish on their own; then nothing may remain
 		if l := snap.Leaked(scope, nil, 3*time.Second); len(l) > 0 {
 			sum := vk.FrameSummary(l)
-			run.Violation("C16:hybrid|goroutine-left|"+c16LeakFn(sum[0]), map[string]any{"batch_start": done, "leaked": len(l), "frames": sum, "stack": l[0].Stack})
+			run.Violation("C16:hybrid|goroutine-left|"+c16LeakFn(l[0]), map[string]any{"batch_start": done, "leaked": len(l), "frames": sum, "stack": l[0].Stack})
 			run.Count("leak_violations", 1) // after 3 the test stops: every further trial would wait the full poll interval
 		}
 		run.Count("leak_checks", 1)
 	}
 }
 
-// c16LeakFn strips the (varying) goroutine state from a vk.FrameSummary entry.
-func c16LeakFn(s string) string {
-	if i := strings.Index(s, "tunnox-core/"); i >= 0 {
-		return s[i:]
+// c16LeakFn names a leaked goroutine by its entry function (outermost tunnox-core
+// frame): stable across the states/inner frames the goroutine happens to be in.
+func c16LeakFn(g vk.Goroutine) string {
+	fn := "?"
+	for _, l := range strings.Split(g.Stack, "\n") {
+		if strings.HasPrefix(l, "tunnox-core/") {
+			fn = l
+			if i := strings.LastIndex(fn, "("); i > 0 {
+				fn = fn[:i]
+			}
+		}
 	}
-	return s
+	return fn
 }
